@@ -787,7 +787,9 @@ fn boundary_cases(rng: &mut Rng, target: usize, out: &mut Vec<Req>) {
     let padkey = *rng.pick(&["state_key", "sender", "room_id", "event_id"]);
     ev.insert(padkey.into(), json!(""));
     let base = to_cj_obj(Value::Object(ev.clone()));
-    let red = redact(base.clone(), &rules(ver).redaction, None).expect("well-formed event redacts");
+    // (a generated member event may carry a `third_party_invite` that is not an object, which room
+    // version 11's redaction refuses: no boundary case from such an event)
+    let Ok(red) = redact(base.clone(), &rules(ver).redaction, None) else { return };
     let l0 = bytes_of(&without(&red, &["signatures", "unsigned"])).len();
     if l0 <= target {
         ev.insert(padkey.into(), json!(pad_string(rng, target - l0)));
